@@ -75,6 +75,9 @@ func (c *CodecManager) RegisterCodec(codecType CodecType, codec Codec) {
 }
 
 func (c *CodecManager) GetCodec(codecType CodecType, msgType message.MessageType) Codec {
+	// RegisterCodec writes both map levels under the mutex
+	c.mutex.Lock()
+	defer c.mutex.Unlock()
 	if m := c.codecMap[codecType]; m != nil {
 		return m[msgType]
 	}
